@@ -97,6 +97,10 @@ func (fr *Frame) callStatic(fn *ssa.Function, args []Value, bind []Value, pc *Te
 	if fn.Origin() != nil {
 		name = fn.Origin().String()
 	}
+	if ex.inInit && fn.Name() == "init" && fn.Pkg != nil && fn.Pkg != ex.root.Pkg {
+		// initialisers of imported packages are not executed
+		return callResult{val: TupleV{}, st: st}
+	}
 	if m, ok := stdModels[name]; ok {
 		return m(fr, fn, args, pc, st, pos, resT)
 	}
